@@ -6,6 +6,9 @@ pub mod pretty;
 mod config;
 mod utils;
 
+#[cfg(typstyle_verif)]
+pub mod verif;
+
 pub use attr::AttrStore;
 pub use config::Config;
 use pretty::{ArenaDoc, PrettyPrinter};
@@ -53,16 +56,24 @@ impl Typstyle {
         source: &Source,
         inspector: impl FnOnce(&ArenaDoc<'_>),
     ) -> Result<String, Error> {
+        #[cfg(typstyle_verif)]
+        verif::point("format:entry");
         let root = source.root();
         if root.erroneous() {
             return Err(Error::SyntaxError);
         }
         let attr_store = AttrStore::new(root);
+        #[cfg(typstyle_verif)]
+        verif::point("format:attrs-done");
         let printer = PrettyPrinter::new(self.config.clone(), attr_store);
         let markup = root.cast().unwrap();
         let doc = printer.convert_markup(Default::default(), markup);
+        #[cfg(typstyle_verif)]
+        verif::point("format:converted");
         inspector(&doc);
         let result = doc.pretty(self.config.max_width).to_string();
+        #[cfg(typstyle_verif)]
+        verif::point("format:rendered");
         let result = utils::strip_trailing_whitespace(&result);
         Ok(result)
     }
